@@ -15,7 +15,9 @@ import (
 	"bytes"
 	"context"
 	"fmt"
+	"math"
 	"sort"
+	"strconv"
 	"strings"
 	"sync"
 	"testing"
@@ -25,6 +27,7 @@ import (
 	"github.com/mgtv-tech/redis-GunYu/config"
 	"github.com/mgtv-tech/redis-GunYu/pkg/rdb"
 	redisclient "github.com/mgtv-tech/redis-GunYu/pkg/redis/client"
+	"github.com/mgtv-tech/redis-GunYu/pkg/redis/client/proto"
 	"github.com/mgtv-tech/redis-GunYu/pkg/redis/client/common"
 	usync "github.com/mgtv-tech/redis-GunYu/pkg/sync"
 	"github.com/mgtv-tech/redis-GunYu/pkg/vfc03"
@@ -41,15 +44,52 @@ type vfC03Reply struct {
 type vfC03Redis struct {
 	c       *vfc03.Conn
 	pending []vfC03Reply
+	// wireErr collects float arguments whose wire text (the real proto.Writer) does
+	// not read back as the same double
+	wireErr *[]string
+}
+
+// vfC03Wire renders the arguments with the real RESP writer of the client and
+// checks every float64 argument: the text on the wire must parse back to exactly
+// the same double, in the plain decimal / inf form Redis' strtod accepts.
+func (f *vfC03Redis) checkWire(cmd string, args []interface{}) {
+	tgMu.Lock()
+	defer tgMu.Unlock()
+	for _, a := range args {
+		fl, ok := a.(float64)
+		if !ok {
+			continue
+		}
+		var buf bytes.Buffer
+		w := proto.NewWriter(&buf, 256)
+		if err := w.WriteArg(fl); err != nil {
+			*f.wireErr = append(*f.wireErr, fmt.Sprintf("%s: float %v not writable: %v", cmd, fl, err))
+			continue
+		}
+		w.Flush()
+		// "$<n>\r\n<text>\r\n"
+		parts := strings.SplitN(buf.String(), "\r\n", 3)
+		if len(parts) < 2 {
+			*f.wireErr = append(*f.wireErr, fmt.Sprintf("%s: bad bulk for %v", cmd, fl))
+			continue
+		}
+		text := parts[1]
+		back, err := strconv.ParseFloat(text, 64)
+		if err != nil || math.Float64bits(back) != math.Float64bits(fl) && !(math.IsNaN(back) && math.IsNaN(fl)) {
+			*f.wireErr = append(*f.wireErr, fmt.Sprintf("%s: float64 bits %d sent as %q which reads back as %v", cmd, math.Float64bits(fl), text, back))
+		}
+	}
 }
 
 var _ redisclient.Redis = (*vfC03Redis)(nil)
 
 func (f *vfC03Redis) Close() error { return nil }
 func (f *vfC03Redis) Do(cmd string, args ...interface{}) (interface{}, error) {
+	f.checkWire(cmd, args)
 	return f.c.Do(cmd, args...)
 }
 func (f *vfC03Redis) Send(cmd string, args ...interface{}) error {
+	f.checkWire(cmd, args)
 	v, err := f.c.Do(cmd, args...)
 	f.pending = append(f.pending, vfC03Reply{v, err})
 	return nil
@@ -103,6 +143,7 @@ type vfC03Cfg struct {
 	tdb     int
 	dbmap   map[int]int
 	now     uint64
+	tick    int // ms of virtual time per request (0 = the clock stands still)
 	flt     *vfc03.FilterSpec
 }
 
@@ -134,7 +175,7 @@ func (c vfC03Cfg) String() string {
 	if f == nil {
 		f = &vfc03.FilterSpec{}
 	}
-	return fmt.Sprintf("%d %d %d %d %d %d %d %d %s %d %s", c.thr, c.tgt, c.fnex, b2i(c.modaux), b2i(c.restore), c.bulk, c.par, c.tdb, c.dbmapStr(), c.now, f.Tokens())
+	return fmt.Sprintf("%d %d %d %d %d %d %d %d %s %d %d %s", c.thr, c.tgt, c.fnex, b2i(c.modaux), b2i(c.restore), c.bulk, c.par, c.tdb, c.dbmapStr(), c.now, c.tick, f.Tokens())
 }
 
 // filterConfig is the configuration handed to the real RedisOutput.
@@ -185,11 +226,21 @@ type vfC03Pre struct {
 }
 
 // vfC03Send runs the real sendRdb on data in a synctest bubble.
-func vfC03Send(t *testing.T, data []byte, c vfC03Cfg, pre []vfC03Pre) (tg *vfc03.Target, conns []*vfc03.Conn, err error) {
+// the bubble starts at 2000-01-01 00:00:00 UTC; the replay starts at an odd millisecond
+const vfC03Epoch = 946684800000
+const vfC03Now = vfC03Epoch + 123457
+
+func vfC03Send(t *testing.T, data []byte, c vfC03Cfg, pre []vfC03Pre) (tg *vfc03.Target, conns []*vfc03.Conn, wireErr []string, err error) {
 	old := rdb.VerifSetMaxBinEntryBuffer(c.thr)
 	defer rdb.VerifSetMaxBinEntryBuffer(old)
 	synctest.Test(t, func(t *testing.T) {
 		tg = vfc03.NewTarget()
+		tg.Major = c.tgt
+		tg.Now = func() int64 { return time.Now().UnixMilli() }
+		tg.TickMs = int64(c.tick)
+		if c.tick > 0 {
+			tg.Tick = func() { time.Sleep(time.Duration(c.tick) * time.Millisecond) }
+		}
 		for _, p := range pre {
 			tg.Put(p.db, p.key, p.val)
 		}
@@ -222,8 +273,9 @@ func vfC03Send(t *testing.T, data []byte, c vfC03Cfg, pre []vfC03Pre) (tg *vfc03
 			tgMu.Lock()
 			conns = append(conns, cn)
 			tgMu.Unlock()
-			return &vfC03Redis{c: cn}, nil
+			return &vfC03Redis{c: cn, wireErr: &wireErr}, nil
 		}
+		time.Sleep(time.Duration(c.now-vfC03Epoch) * time.Millisecond)
 		if uint64(time.Now().UnixMilli()) != c.now {
 			t.Fatalf("bubble clock %d != %d", time.Now().UnixMilli(), c.now)
 		}
@@ -277,7 +329,7 @@ func TestVerifC03Replay(t *testing.T) {
 		s.Op(fmt.Sprintf("%s %d %s", name, idx, rest), tagged...)
 		idx++
 	}
-	const now = 946684800000 // synctest epoch, ms
+	const now = vfC03Now
 
 	type kase struct {
 		ds   *vfc03.Dataset
@@ -292,6 +344,11 @@ func TestVerifC03Replay(t *testing.T) {
 		c := vfC03Cfg{thr: vfutil.Pick(r, []int{1, 20, 100, 16 << 20}), tgt: vfutil.Pick(r, []int{4, 5, 6, 7, 8}),
 			fnex: r.Intn(3), modaux: r.Bool(), restore: r.Bool(), bulk: vfutil.Pick(r, []int{30, 120, 512 << 20}),
 			par: r.Range(1, 4), tdb: -1, now: now}
+		if r.Chance(1, 2) {
+			// a clock that advances with every request (one lane, so that the instant each
+			// entry's replay starts is a function of the request count)
+			c.par, c.tick = 1, 1
+		}
 		if r.Chance(1, 6) {
 			c.tdb = r.Intn(4)
 		}
@@ -330,6 +387,9 @@ func TestVerifC03Replay(t *testing.T) {
 		}
 		prefix := func() []byte {
 			k := pickKey().Key
+			if len(k) == 0 {
+				return []byte("zz") // "" has no non-empty prefix
+			}
 			n := r.Range(1, vfutil.Min(3, len(k)))
 			return append([]byte{}, k[:n]...)
 		}
@@ -371,7 +431,7 @@ func TestVerifC03Replay(t *testing.T) {
 			if r.Chance(1, 4) {
 				v := &vfc03.Val{Kind: "string", Str: []byte("old")}
 				if r.Bool() {
-					v = &vfc03.Val{Kind: "list", List: [][]byte{[]byte("o1"), []byte("o2")}, TTL: 5555}
+					v = &vfc03.Val{Kind: "list", List: [][]byte{[]byte("o1"), []byte("o2")}, TTL: 5555, ExpAt: 5555}
 				}
 				pre = append(pre, vfC03Pre{c.mapDB(k.DB), k.Key, v})
 			}
@@ -382,22 +442,23 @@ func TestVerifC03Replay(t *testing.T) {
 		return pre
 	}
 
-	// ---- corpus: "l2 <cfg…> <5 filter tokens> <npre> (<db> <hexkey>)* FILE" (pre-existing keys are strings "old")
+	// ---- corpus: "l2 <cfg… now tick> <5 filter tokens> <npre> (<db> <hexkey>)* FILE" (pre-existing keys are strings "old")
 	for _, l := range vfutil.Corpus("C03") {
 		f := strings.Fields(l)
-		if len(f) < 18 || f[0] != "l2" {
+		if len(f) < 19 || f[0] != "l2" {
 			continue
 		}
 		var c vfC03Cfg
 		var ma, re, npre int
 		var dm string
 		fmt.Sscanf(strings.Join(f[1:11], " "), "%d %d %d %d %d %d %d %d %s %d", &c.thr, &c.tgt, &c.fnex, &ma, &re, &c.bulk, &c.par, &c.tdb, &dm, &c.now)
-		flt, ferr := vfc03.ParseFilter(f[11:16])
+		fmt.Sscanf(f[11], "%d", &c.tick)
+		flt, ferr := vfc03.ParseFilter(f[12:17])
 		if ferr != nil {
 			t.Fatalf("corpus line: %v: %q", ferr, l)
 		}
 		c.flt = flt
-		fmt.Sscanf(f[16], "%d", &npre)
+		fmt.Sscanf(f[17], "%d", &npre)
 		c.modaux, c.restore = ma == 1, re == 1
 		if dm != "-" {
 			c.dbmap = map[int]int{}
@@ -410,16 +471,17 @@ func TestVerifC03Replay(t *testing.T) {
 		var pre []vfC03Pre
 		for i := 0; i < npre; i++ {
 			var db int
-			fmt.Sscanf(f[17+2*i], "%d", &db)
-			pre = append(pre, vfC03Pre{db, vfutil.UnHex(f[18+2*i]), &vfc03.Val{Kind: "string", Str: []byte("old")}})
+			fmt.Sscanf(f[18+2*i], "%d", &db)
+			pre = append(pre, vfC03Pre{db, vfutil.UnHex(f[19+2*i]), &vfc03.Val{Kind: "string", Str: []byte("old")}})
 		}
-		cases = append(cases, kase{ds: nil, cfg: c, pre: pre, src: "corpus", desc: strings.Join(f[17+2*npre:], " ")})
+		cases = append(cases, kase{ds: nil, cfg: c, pre: pre, src: "corpus", desc: strings.Join(f[18+2*npre:], " ")})
 	}
 
 	g := vfc03.NewGen(r.Fork())
 	n := vfutil.Scale(220, 5000)
 	for i := 0; i < n; i++ {
-		ds := g.File(vfc03.FileOpts{MaxKeys: 6, Now: now, MultiDB: true, Reserved: true, Versions: []int{6, 7, 8, 9, 10, 11, 12, 13}})
+		ds := g.File(vfc03.FileOpts{MaxKeys: 6, Now: now, MultiDB: true, Reserved: true, Modules: true,
+			Huge: i == n/2 || (vfutil.Thorough() && i%500 == 7), Versions: []int{6, 7, 8, 9, 10, 11, 12, 13}})
 		c := randCfg(ds)
 		c.flt = randFilter(ds)
 		cases = append(cases, kase{ds: ds, cfg: c, pre: randPre(ds, c), src: "gen", desc: ds.Desc})
@@ -438,7 +500,10 @@ func TestVerifC03Replay(t *testing.T) {
 			t.Fatalf("description rejected by the encoder: %s", k.desc)
 		}
 		c := k.cfg
-		tg, conns, err := vfC03Send(t, o.File, c, k.pre)
+		tg, conns, wireErr, err := vfC03Send(t, o.File, c, k.pre)
+		for _, w := range wireErr {
+			s.Violate("float-wire-text", w, map[string]interface{}{"desc": k.desc})
+		}
 		var preTok []string
 		for _, p := range k.pre {
 			preTok = append(preTok, fmt.Sprint(p.db), vfutil.Hex(p.key))
@@ -455,8 +520,36 @@ func TestVerifC03Replay(t *testing.T) {
 		s.Count("l2_" + k.src)
 		s.Count(fmt.Sprintf("par_%d", c.par))
 		s.Count(fmt.Sprintf("restore_%d", b2i(c.restore)))
+		s.Count(fmt.Sprintf("tick_%d", c.tick))
+		s.Add("restore_bad_data_format_fallbacks", tg.BadFormat)
+		if len(o.File) > 1<<20 {
+			s.Count("files_over_1MiB")
+		} else if len(o.File) > 16384 {
+			s.Count("files_over_16KiB")
+		}
 		replay := map[string]interface{}{"op": "l2 " + rest}
 		// ---------------- monitor: the property itself, on the real code's output
+		// a module value can only travel as a RESTORE payload, module aux data is refused under the
+		// `fail` policy: those syncs are expected to end in an error (by design of the tool)
+		expectFail := false
+		if k.ds != nil {
+			if k.ds.ModuleAux && c.modaux {
+				expectFail = true
+			}
+			for j, ek := range k.ds.Keys {
+				if ek.Kind == "mod2" && !c.flt.DbFiltered(ek.DB) && !c.flt.KeyFiltered(ek.Key) &&
+					(!c.restore || 1+len(o.Keys[j].Ser)+10 > c.bulk) {
+					expectFail = true
+				}
+			}
+		}
+		if expectFail {
+			s.Count("expected_failures")
+			if err == nil {
+				s.Violate("module-sync-succeeded", "a snapshot with a module value that cannot be RESTOREd / refused module aux data was replayed without error", replay)
+			}
+			continue
+		}
 		if err != nil {
 			s.Violate("full-sync-failed", fmt.Sprintf("sendRdb failed on a well-formed snapshot: %v", firstLine(err.Error())), replay)
 			continue
@@ -515,6 +608,11 @@ func TestVerifC03Replay(t *testing.T) {
 				continue
 			}
 			v := tg.DBs[c.mapDB(ek.DB)][string(ek.Key)]
+			// the absolute expiry a request establishes is judged from the target clock at the
+			// entry's first request (+- a few ms of request accounting)
+			if v != nil && ek.ExpireAt != 0 && v.ExpAt-int64(ek.ExpireAt) <= 3 && int64(ek.ExpireAt)-v.ExpAt <= 3 {
+				v.ExpAt = int64(ek.ExpireAt)
+			}
 			if v != nil && v.Kind == "restored" {
 				s.Count("path_restore")
 				m := o.Keys[j]
@@ -523,12 +621,20 @@ func TestVerifC03Replay(t *testing.T) {
 				for b := 0; b < 8; b++ {
 					body = append(body, byte(crc>>(8*uint(b))))
 				}
-				exp := &vfc03.Val{Kind: "restored", Payload: body, TTL: ttl, Idle: v.Idle, Freq: v.Freq}
+				exp := &vfc03.Val{Kind: "restored", Payload: body, ExpAt: int64(ek.ExpireAt)}
+				if c.tgt >= 5 {
+					if ek.Idle != 0 {
+						exp.Idle = strconv.Itoa(ek.Idle)
+					}
+					if ek.Freq != 0 {
+						exp.Freq = strconv.Itoa(ek.Freq)
+					}
+				}
 				want[id] = exp.Canon()
 			} else {
 				s.Count("path_expand")
 				e := *ek.Val
-				e.TTL = ttl
+				e.ExpAt = int64(ek.ExpireAt)
 				want[id] = e.Canon()
 			}
 		}
